@@ -680,7 +680,7 @@ impl Walrus {
         while cur_idx < chain.len() && (planned_bytes < max_bytes || plan.is_empty()) {
             let block = chain[cur_idx].clone();
             if cur_off >= block.used {
-                if info_guard.is_some() {
+                if info_guard.is_some() && checkpoint {
                     BlockStateTracker::set_checkpointed_true(block.id as usize);
                 }
                 cur_idx += 1;
